@@ -140,7 +140,7 @@ var oddNames = []string{"select", "FROM", "time", "my db", "a.b", "q\"uote", "ba
 	"true", "False", "and", "OR", "Time", "TIME", "now", "now()",
 	// letters whose lower-case form is longer in UTF-8 than they are (U+023A, U+023E: two bytes become three), in names of
 	// every length up to a few machine words
-	"Ⱥ", "ȺȺȺȺȺȺ", "ȾȺȾȺȾȺȾȺ", "aȺȺȺȺȺȺȺ", "ȺȺȺȺȺȺȺȺȺȺȺȺȺȺȺȺ", "İİİİİİİİ", "KKKKKKKK"}
+	"a^b", "x[1]", "a`b", "p\\q", "a]", "^", "Ⱥ", "ȺȺȺȺȺȺ", "ȾȺȾȺȾȺȾȺ", "aȺȺȺȺȺȺȺ", "ȺȺȺȺȺȺȺȺȺȺȺȺȺȺȺȺ", "İİİİİİİİ", "KKKKKKKK"}
 
 func (g *gen) name() string {
 	if g.r.chance(3, 4) {
